@@ -251,7 +251,7 @@ pub fn run(cx: &mut Cx) {
     let scratch = cx.scratch.clone();
     if !mini {
         std::fs::create_dir_all(&scratch)
-            .unwrap_or_else(|e| panic!("harness: cannot create scratch directory {scratch:?}: {e}"));
+            .unwrap_or_else(|e| od::die!("harness: cannot create scratch directory {scratch:?}: {e}"));
     }
 
     for v in &vectors {
@@ -262,7 +262,7 @@ pub fn run(cx: &mut Cx) {
         let len = data.len();
         let text = std::str::from_utf8(data).ok();
         if text.is_some() != v.utf8 {
-            panic!("harness: vectors entry {} disagrees with Rust about UTF-8 validity", v.index);
+            od::die!("harness: vectors entry {} disagrees with Rust about UTF-8 validity", v.index);
         }
         let markers = od::marker_offsets(data);
         let newlines = od::newline_offsets(data);
@@ -288,7 +288,7 @@ pub fn run(cx: &mut Cx) {
         let path = scratch.join(format!("in-{}", v.index));
         if !mini {
             std::fs::write(&path, data)
-                .unwrap_or_else(|e| panic!("harness: cannot write scratch file {path:?}: {e}"));
+                .unwrap_or_else(|e| od::die!("harness: cannot write scratch file {path:?}: {e}"));
         }
 
         // ---- schedules shared by the six algorithms of this input ----
@@ -362,7 +362,7 @@ pub fn run(cx: &mut Cx) {
                 };
                 let mut fh = if with_file {
                     Some(std::fs::File::open(&path).unwrap_or_else(|e| {
-                        panic!("harness: cannot reopen scratch file {path:?}: {e}")
+                        od::die!("harness: cannot reopen scratch file {path:?}: {e}")
                     }))
                 } else {
                     None
